@@ -20,6 +20,7 @@ import (
 	"strconv"
 	"strings"
 	"sync"
+	"sync/atomic"
 	"testing"
 	"time"
 )
@@ -60,6 +61,9 @@ type Ctx struct {
 	opsLog       *os.File
 	start        time.Time
 	caseSeq      map[string]int
+	progress     atomic.Int64
+	curCase      atomic.Value // string
+	curOps       atomic.Value // []string snapshot (last ops)
 }
 
 type failSentinel struct{}
@@ -138,8 +142,97 @@ func Run(t *testing.T, prop string, body func(ctx *Ctx)) {
 		defer f.Close()
 	}
 	debug.SetGCPercent(200)
+	stop := make(chan struct{})
+	go ctx.watchdog(stop)
 	body(ctx)
+	close(stop)
 	ctx.writeResult()
+}
+
+// Touch tells the watchdog that the check is making progress (Op, Eval and Count call it).
+func (c *Ctx) Touch() { c.progress.Add(1) }
+
+// watchdog implements the hang rule of DESIGN.md section 1: a stall is a violation only
+// with a witness in the goroutine dump (goroutines parked on locks/channels inside
+// kektordb frames, or still running inside kektordb code); otherwise it is inconclusive.
+func (c *Ctx) watchdog(stop chan struct{}) {
+	stall := time.Duration(envInt("VERIF_STALL_S", 120)) * time.Second
+	last := c.progress.Load()
+	lastChange := time.Now()
+	tick := time.NewTicker(time.Second)
+	defer tick.Stop()
+	for {
+		select {
+		case <-stop:
+			return
+		case <-tick.C:
+		}
+		if p := c.progress.Load(); p != last {
+			last, lastChange = p, time.Now()
+			continue
+		}
+		if time.Since(lastChange) < stall {
+			continue
+		}
+		dump := DumpGoroutines()
+		class, frames := ClassifyDump(dump)
+		cur, _ := c.curCase.Load().(string)
+		grp, idx := cur, 0
+		if i := strings.LastIndex(cur, "/"); i > 0 {
+			grp = cur[:i]
+			idx, _ = strconv.Atoi(cur[i+1:])
+		}
+		if class != "" {
+			c.Violation(grp, idx, fmt.Sprintf("no progress for %v: %s (%s)", stall, class, strings.Join(frames, " | ")), nil,
+				map[string]any{"goroutine_dump": strings.Split(dump, "\n")})
+		} else {
+			c.Inconclusive(fmt.Sprintf("no progress for %v in case %s and no kektordb frame is blocked or running", stall, cur))
+		}
+		c.writeResult()
+		os.Exit(3)
+	}
+}
+
+// ClassifyDump looks for a deadlock / non-termination witness in a goroutine dump.
+func ClassifyDump(dump string) (string, []string) {
+	var blocked, running []string
+	for _, g := range strings.Split(dump, "\n\n") {
+		lines := strings.Split(g, "\n")
+		if len(lines) == 0 || !strings.HasPrefix(lines[0], "goroutine ") {
+			continue
+		}
+		head := lines[0]
+		frame := ""
+		for _, l := range lines[1:] {
+			if strings.Contains(l, "github.com/sanonone/kektordb/") && !strings.Contains(l, "/zzverif/") && !strings.Contains(l, "zz_verif_") && !strings.HasPrefix(l, "\t") {
+				frame = strings.TrimSpace(l)
+				if i := strings.Index(frame, "("); i > 0 {
+					frame = frame[:i]
+				}
+				break
+			}
+		}
+		if frame == "" {
+			continue
+		}
+		switch {
+		case strings.Contains(head, "[sync.") || strings.Contains(head, "[semacquire") || strings.Contains(head, "[chan send") || strings.Contains(head, "[chan receive") || strings.Contains(head, "[select"):
+			// background loops of the product legitimately sit in select/chan receive
+			if strings.Contains(frame, "backgroundTasks") || strings.Contains(frame, ".run") || strings.Contains(frame, "Compactor") || strings.Contains(frame, "EventBus") {
+				continue
+			}
+			blocked = append(blocked, frame+" "+head[strings.Index(head, "["):])
+		case strings.Contains(head, "[running") || strings.Contains(head, "[runnable"):
+			running = append(running, frame)
+		}
+	}
+	if len(blocked) > 0 {
+		return "goroutines blocked inside kektordb (deadlock witness)", blocked
+	}
+	if len(running) > 0 {
+		return "goroutine still executing inside kektordb (non-termination witness)", running
+	}
+	return "", nil
 }
 
 func (c *Ctx) Quick() bool { return c.Tier != "thorough" }
@@ -170,6 +263,7 @@ func (c *Ctx) Assume(s string) {
 }
 
 func (c *Ctx) Count(name string, n int64) {
+	c.progress.Add(1)
 	c.mu.Lock()
 	c.counters[name] += n
 	c.mu.Unlock()
@@ -182,6 +276,7 @@ func (c *Ctx) Counter(name string) int64 {
 }
 
 func (c *Ctx) Eval(n int64) {
+	c.progress.Add(1)
 	c.mu.Lock()
 	c.evals += n
 	c.mu.Unlock()
@@ -340,6 +435,8 @@ func (c *Ctx) RunCase(name string, i int, fn func(cs *Case)) {
 	if c.opsLog != nil {
 		fmt.Fprintf(c.opsLog, "== case %s/%d\n", name, i)
 	}
+	c.curCase.Store(fmt.Sprintf("%s/%d", name, i))
+	c.progress.Add(1)
 	fn(cs)
 }
 
@@ -351,6 +448,7 @@ func (cs *Case) cleanup() {
 
 // Op logs an operation BEFORE it is executed (the log survives a process-fatal fault).
 func (cs *Case) Op(format string, a ...any) {
+	cs.C.progress.Add(1)
 	s := fmt.Sprintf(format, a...)
 	if len(s) > 2000 {
 		s = s[:2000] + "…"
